@@ -6,6 +6,7 @@
 package ref
 
 import (
+	"fmt"
 	"sort"
 	"strconv"
 	"strings"
@@ -36,11 +37,11 @@ type Obj struct {
 // Out is the outcome of one resolver (or directive) invocation.
 type Out struct {
 	K    Kind
-	Obj  *Obj   // object-valued fields
-	List []*Obj // list-valued fields (elements may be nil)
+	Obj  *Obj      // object-valued fields
+	List []*Obj    // list-valued fields (elements may be nil)
 	Strs []*string // lists of scalars (elements may be nil); nil slice = null list
-	Str  string // scalar String fields
-	Int  int    // scalar Int fields
+	Str  string    // scalar String fields
+	Int  int       // scalar Int fields
 }
 
 // World answers, consistently, what each resolver-backed position yields.
@@ -84,11 +85,11 @@ type Result struct {
 
 type exec struct {
 	deferOn bool // honour @defer: a non-null failure inside a deferred group nulls the group, not the object
-	schema *ast.Schema
-	doc    *ast.QueryDocument
-	vars   map[string]any
-	w      World
-	errs   []string
+	schema  *ast.Schema
+	doc     *ast.QueryDocument
+	vars    map[string]any
+	w       World
+	errs    []string
 	// AfterRoot is called after each root field of a mutation (serial execution witness)
 	rootDone func(name string)
 }
@@ -327,7 +328,7 @@ func (e *exec) deferrable(objType string, c *collected) bool {
 		return false
 	}
 	switch objType + "." + c.fields[0].Name {
-	case "User.id", "User.name", "User.age", "Item.id", "Item.title":
+	case "User.id", "User.name", "User.age", "User.label", "Item.id", "Item.title":
 		return false
 	}
 	return c.fields[0].Name != "__typename"
@@ -445,6 +446,10 @@ func (e *exec) field(objType string, obj *Obj, c *collected, path string) (strin
 			return strconv.Quote(*obj.Name), true
 		case "User.age":
 			return strconv.Itoa(obj.Age), true
+		case "User.label":
+			// a field bound to a method of the model: computed from the coerced arguments, by name
+			a := argMap(f, e.vars)
+			return strconv.Quote(fmt.Sprintf("first=%v|last=%v|sep=%v", a["first"], a["last"], a["sep"])), true
 		case "Item.title":
 			return strconv.Quote(obj.Title), true
 		}
